@@ -144,6 +144,14 @@ let parse_hop (f : string array) : M.hop =
       | _ -> failwith "bad part") (split_on ',' f.(6)))
   | "abort" -> M.HAbort (h 3, h 4, h 5)
   | "lsp" -> M.HListParts (h 3, h 4, h 5, z_of_int (int_of_string f.(6)), z_of_int (int_of_string f.(7)))
+  | "rput" ->
+    let fa = int_of_string f.(7) in
+    M.HPutRaw (h 3, h 4, List.map pair_of (split_on ',' f.(5)), h 6, (if fa < 0 then None else Some (z_of_int fa)),
+               bool_of_field f.(8), z_of_int (int_of_string f.(9)))
+  | "rpart" ->
+    let fa = int_of_string f.(9) in
+    M.HPartRaw (h 3, h 4, h 5, h 6, List.map pair_of (split_on ',' f.(7)), h 8, (if fa < 0 then None else Some (z_of_int fa)),
+                bool_of_field f.(10))
   | "lsv" ->
     let d = if f.(5) = "-" then None else (match bytes_of_hex f.(5) with [c] -> Some c | _ -> failwith "multi-byte delimiter") in
     M.HListVersions (h 3, h 4, d, h 6, h 7, z_of_int (int_of_string f.(8)))
